@@ -483,8 +483,9 @@ def _structurally_int(e, ctx, depth=0):
         return all(_structurally_int(c, ctx, depth + 1) for c in e.children()[1:])
     if k == z3.Z3_OP_SELECT and z3.is_app(e.arg(0)) and e.arg(0).decl().kind() == z3.Z3_OP_STORE:
         st = e.arg(0)
-        return (_structurally_int(st.arg(2), ctx, depth + 1) and
-                _structurally_int(z3.Select(st.arg(0), e.arg(1)), ctx, depth + 1))
+        if (_structurally_int(st.arg(2), ctx, depth + 1) and
+                _structurally_int(z3.Select(st.arg(0), e.arg(1)), ctx, depth + 1)):
+            return True
     wit = getattr(ctx, "_int_witnessed", None)
     if wit is None or wit[0] != len(ctx.pc):
         ids = set()
@@ -594,7 +595,7 @@ def chk_mesh_x(I, o, fr, v, idx):
         return None
     goal = v >= 0
     if getattr(I, "check_integrality", False):
-        goal = z3.And(goal, int_valued_goal(v))
+        goal = z3.And(goal, int_valued_goal(v, I.c))
     if fr.fn.endswith("ApplyReaction"):
         mi = _isn(I, fr, ("mesh_index",))
         ri = _isn(I, fr, ("reaction_index",))
